@@ -185,6 +185,96 @@ impl<'a> UnindexedConsumer<u32> for CollectConsumer<'a> {
     }
 }
 
+/// A deterministic parallel-iterator base: `drive` splits the consumer per the tree and feeds each
+/// leaf's folder with `consume_iter` on the calling thread (what rayon's bridge does, minus the pool).
+struct DetPar<'a> {
+    items: Vec<u32>,
+    tree: &'a Tree,
+}
+
+fn det_drive<C: Consumer<u32>>(mut items: Vec<u32>, tree: &Tree, consumer: C) -> C::Result {
+    match tree {
+        Tree::Leaf(_) => consumer.into_folder().consume_iter(items).complete(),
+        Tree::Node(a, b) => {
+            let right = items.split_off(a.len().min(items.len()));
+            let (l, r, reducer) = consumer.split_at(a.len());
+            let lr = det_drive(items, a, l);
+            let rr = det_drive(right, b, r);
+            reducer.reduce(lr, rr)
+        }
+    }
+}
+
+impl<'a> ParallelIterator for DetPar<'a> {
+    type Item = u32;
+    fn drive_unindexed<C: UnindexedConsumer<u32>>(self, consumer: C) -> C::Result {
+        det_drive(self.items, self.tree, consumer)
+    }
+    fn opt_len(&self) -> Option<usize> {
+        Some(self.items.len())
+    }
+}
+
+impl<'a> IndexedParallelIterator for DetPar<'a> {
+    fn len(&self) -> usize {
+        self.items.len()
+    }
+    fn drive<C: Consumer<u32>>(self, consumer: C) -> C::Result {
+        det_drive(self.items, self.tree, consumer)
+    }
+    fn with_producer<CB: ProducerCallback<u32>>(self, callback: CB) -> CB::Output {
+        self.items.into_par_iter().with_producer(callback)
+    }
+}
+
+/// A consumer that stops accepting items after `limit` of them (like find_any / take_any).
+struct LimitConsumer {
+    left: std::sync::Arc<std::sync::atomic::AtomicIsize>,
+    taken: std::sync::Arc<std::sync::atomic::AtomicUsize>,
+}
+struct LimitFolder {
+    left: std::sync::Arc<std::sync::atomic::AtomicIsize>,
+    taken: std::sync::Arc<std::sync::atomic::AtomicUsize>,
+}
+struct NoReduce;
+impl Reducer<()> for NoReduce {
+    fn reduce(self, _: (), _: ()) {}
+}
+impl Folder<u32> for LimitFolder {
+    type Result = ();
+    fn consume(self, _item: u32) -> Self {
+        self.taken.fetch_add(1, std::sync::atomic::Ordering::SeqCst);
+        self.left.fetch_sub(1, std::sync::atomic::Ordering::SeqCst);
+        self
+    }
+    fn complete(self) {}
+    fn full(&self) -> bool {
+        self.left.load(std::sync::atomic::Ordering::SeqCst) <= 0
+    }
+}
+impl Consumer<u32> for LimitConsumer {
+    type Folder = LimitFolder;
+    type Reducer = NoReduce;
+    type Result = ();
+    fn split_at(self, _: usize) -> (Self, Self, NoReduce) {
+        (LimitConsumer { left: self.left.clone(), taken: self.taken.clone() }, LimitConsumer { left: self.left, taken: self.taken }, NoReduce)
+    }
+    fn into_folder(self) -> LimitFolder {
+        LimitFolder { left: self.left, taken: self.taken }
+    }
+    fn full(&self) -> bool {
+        self.left.load(std::sync::atomic::Ordering::SeqCst) <= 0
+    }
+}
+impl UnindexedConsumer<u32> for LimitConsumer {
+    fn split_off_left(&self) -> Self {
+        LimitConsumer { left: self.left.clone(), taken: self.taken.clone() }
+    }
+    fn to_reducer(&self) -> NoReduce {
+        NoReduce
+    }
+}
+
 fn fin(i: usize) -> ProgressFinish {
     match i {
         0 => ProgressFinish::AndLeave,
@@ -269,9 +359,10 @@ pub fn run(tier: Tier, shard: Shard, stats: &mut Stats, case: &mut u64) {
                         clock::reset();
                         let items: Vec<u32> = (0..n as u32).collect();
                         let pb = ProgressBar::with_draw_target(Some(n as u64), ProgressDrawTarget::hidden()).with_finish(fin(f));
-                        let wrapped = items.clone().into_par_iter().progress_with(pb.clone());
+                        let wrapped = DetPar { items: items.clone(), tree: &tree }.progress_with(pb.clone());
                         let mut got = if unindexed { wrapped.drive_unindexed(CollectConsumer { tree: &tree }) } else { wrapped.drive(CollectConsumer { tree: &tree }) };
-                        let mut want = if unindexed { items.clone().into_par_iter().drive_unindexed(CollectConsumer { tree: &tree }) } else { items.clone().into_par_iter().drive(CollectConsumer { tree: &tree }) };
+                        let bare = DetPar { items: items.clone(), tree: &tree };
+                        let mut want = if unindexed { bare.drive_unindexed(CollectConsumer { tree: &tree }) } else { bare.drive(CollectConsumer { tree: &tree }) };
                         got.sort();
                         want.sort();
                         if got != want {
@@ -281,6 +372,45 @@ pub fn run(tier: Tier, shard: Shard, stats: &mut Stats, case: &mut u64) {
                             return Err(("count: final position is not the number of items".into(), format!("position {}, expected {n}", pb.position())));
                         }
                         Ok((hash_of(&(n, format!("{:?}", tree), unindexed, f)), n > 0))
+                    });
+                    match r {
+                        Err(p) => stats.violation(Violation { class: format!("panic: {}", panic_class(&p)), config: "rayon".into(), history: hist, detail: p }),
+                        Ok(Err((class, detail))) => stats.violation(Violation { class: format!("rayon drive: {class}"), config: "rayon".into(), history: hist, detail }),
+                        Ok(Ok((h, nt))) => stats.state(h, nt),
+                    }
+                }
+            }
+        }
+    }
+    // short-circuiting consumers over a deterministic base: only items that reach the consumer count
+    for n in 0..=max_n {
+        for tree in trees(n, max_leaves) {
+            for limit in 0..=n as isize + 1 {
+                for unindexed in [false, true] {
+                    *case += 1;
+                    if !shard.owns(*case) {
+                        continue;
+                    }
+                    stats.evaluations += 1;
+                    stats.transitions += n as u64;
+                    let hist = vec![if unindexed { "rayon drive_unindexed (short-circuiting consumer)".to_string() } else { "rayon drive (short-circuiting consumer)".to_string() }, format!("{n} items, split tree {:?}", tree), format!("consumer is full after {limit} items")];
+                    let r = catch(|| -> Result<(u64, bool), (String, String)> {
+                        clock::reset();
+                        let pb = ProgressBar::with_draw_target(Some(n as u64), ProgressDrawTarget::hidden());
+                        let left = std::sync::Arc::new(std::sync::atomic::AtomicIsize::new(limit));
+                        let taken = std::sync::Arc::new(std::sync::atomic::AtomicUsize::new(0));
+                        let wrapped = DetPar { items: (0..n as u32).collect(), tree: &tree }.progress_with(pb.clone());
+                        let c = LimitConsumer { left, taken: taken.clone() };
+                        if unindexed {
+                            wrapped.drive_unindexed(c)
+                        } else {
+                            wrapped.drive(c)
+                        }
+                        let t = taken.load(std::sync::atomic::Ordering::SeqCst) as u64;
+                        if pb.position() != t {
+                            return Err(("count: position differs from the number of items handed to the consumer".into(), format!("position {}, items consumed {t}", pb.position())));
+                        }
+                        Ok((hash_of(&(n, format!("{:?}", tree), limit, unindexed)), t > 0 && (t as usize) < n))
                     });
                     match r {
                         Err(p) => stats.violation(Violation { class: format!("panic: {}", panic_class(&p)), config: "rayon".into(), history: hist, detail: p }),
